@@ -130,7 +130,7 @@ func main() {
 			continue
 		}
 		for _, imp := range f.Imports {
-			if imp.Path.Value == `"sync/atomic"` || imp.Path.Value == `"runtime"` || imp.Path.Value == `"time"` {
+			if imp.Path.Value == `"sync/atomic"` || imp.Path.Value == `"runtime"` || imp.Path.Value == `"time"` || imp.Path.Value == `"math/big"` {
 				usesAtomic = true
 			}
 		}
@@ -214,6 +214,9 @@ func main() {
 	if clockSites > 0 {
 		g.WriteString("import \"time\"\n\n")
 	}
+	if bigSites > 0 {
+		g.WriteString("import \"math/big\"\n\n")
+	}
 	g.WriteString("// VerifClock, when non-nil, is the only clock the package reads (nanoseconds since the Unix epoch).\n")
 	g.WriteString("var VerifClock func() int64\n\n")
 	fmt.Fprintf(&g, "// VerifClockSites is the number of calls of time.Now, time.Since and time.Until routed through VerifClock.\nconst VerifClockSites = %d\n\n", clockSites)
@@ -250,6 +253,11 @@ func main() {
 	if onceSites > 0 {
 		g.WriteString(onceHelper)
 	}
+	fmt.Fprintf(&g, "// VerifBigSites is the number of math/big calls whose work is charged to the logical clock.\nconst VerifBigSites = %d\n\n", bigSites)
+	g.WriteString("// VerifCostHook, when non-nil, is told the estimated work of a math/big call before it runs.\nvar VerifCostHook func(site uint32, cost uint64)\n\n")
+	if bigSites > 0 {
+		g.WriteString(bigHelpers)
+	}
 	g.WriteString("// VerifShared returns the names of and pointers to every package-level variable.\n")
 	g.WriteString("func VerifShared() ([]string, []any) {\n\treturn []string{")
 	for _, n := range globals {
@@ -279,7 +287,7 @@ func main() {
 	if err := os.WriteFile(filepath.Join(*dst, "verif_sites.tsv"), s.Bytes(), 0o644); err != nil {
 		fatal("%v", err)
 	}
-	fmt.Printf("instr: %d files, %d sites, %d globals, sync=%v, atomic operations=%d\n", len(rootFiles), len(sites), len(globals), usesSync, atomicSites)
+	fmt.Printf("instr: %d files, %d sites, %d globals, sync=%v, atomic operations=%d, math/big cost sites=%d\n", len(rootFiles), len(sites), len(globals), usesSync, atomicSites, bigSites)
 }
 
 // funcInfo is what the simulator needs to steer generation towards code that
@@ -720,7 +728,7 @@ func instrExprFuncLits(e ast.Expr, fn string) {
 // site carries the same flag as "a lock has just been acquired", so the
 // schedule's "pre-empt at the k-th synchronisation event of this operation"
 // entries address these points directly.
-var atomicSites, onceSites, clockSites int
+var atomicSites, onceSites, clockSites, bigSites int
 
 var shimsUsed = map[string]bool{}
 
@@ -783,6 +791,173 @@ func verifCAS3[A, B, C any](site uint32, f func(A, B, C) bool, a A, b B, c C) bo
 	return false
 }
 func verifYield(site uint32, _ ...any) { verifStep(site) }
+
+`
+
+// ---------- math/big ----------
+//
+// The statement counter is the simulator's only clock, and time spent inside
+// math/big is invisible to it: a changed tree that squares a number in place
+// call after call (seeded change s15-w15d) kept a worker busy inside one
+// library statement until the wall-clock watchdog ended the run without a
+// verdict. The superlinear operations of *big.Int and *big.Rat are therefore
+// charged to the logical clock before they run: x.Mul(a, b) becomes
+// verifBig21(site, kind, x.Mul, a, b); the helper estimates the work from
+// the operands' sizes (a schoolbook upper bound in units of a quarter word
+// operation, so the estimate is a function of the arguments and of nothing
+// else) and reports it through VerifCostHook; the simulator adds it to the
+// operation's step count, and an operation whose next big call alone would
+// exceed the step budget is ended *before* the call, as "does not terminate
+// within the budget", with a replayable schedule.
+var bigKinds = map[string]uint8{
+	"Int.Mul": 1, "Int.Quo": 1, "Int.Rem": 1, "Int.QuoRem": 1, "Int.Div": 1, "Int.Mod": 1, "Int.DivMod": 1, "Int.ModInverse": 1,
+	"Rat.Mul": 1, "Rat.Quo": 1, "Rat.Add": 1, "Rat.Sub": 1, "Rat.SetFrac": 1, "Rat.Cmp": 1,
+	"Int.Exp": 2,
+	"Int.Lsh": 3, "Int.SetBit": 3,
+	"Int.Sqrt": 4, "Int.SetString": 4, "Rat.SetString": 4,
+}
+
+func rewriteBig(call *ast.CallExpr, tf *types.Func, fn string) {
+	sig, ok := tf.Type().(*types.Signature)
+	if !ok || sig.Recv() == nil || sig.Variadic() {
+		return
+	}
+	rt := sig.Recv().Type()
+	if p, ok := rt.(*types.Pointer); ok {
+		rt = p.Elem()
+	}
+	named, ok := rt.(*types.Named)
+	if !ok {
+		return
+	}
+	kind, ok := bigKinds[named.Obj().Name()+"."+tf.Name()]
+	if !ok {
+		return
+	}
+	np, nr := sig.Params().Len(), sig.Results().Len()
+	name := fmt.Sprintf("verifBig%d%d", np, nr)
+	switch name {
+	case "verifBig11", "verifBig21", "verifBig31", "verifBig22", "verifBig32":
+	default:
+		return
+	}
+	if len(call.Args) != np {
+		return
+	}
+	if _, ok := call.Fun.(*ast.SelectorExpr); !ok {
+		return
+	}
+	p := fset.Position(call.Pos())
+	rel, err := filepath.Rel(srcRoot, p.Filename)
+	if err != nil {
+		rel = filepath.Base(p.Filename)
+	}
+	id := len(sites)
+	sites = append(sites, site{fmt.Sprintf("%s:%d", rel, p.Line), fn, "big " + named.Obj().Name() + "." + tf.Name()})
+	bigSites++
+	args := []ast.Expr{
+		&ast.BasicLit{Kind: token.INT, Value: fmt.Sprintf("%d", id)},
+		&ast.BasicLit{Kind: token.INT, Value: fmt.Sprintf("%d", kind)},
+		call.Fun,
+	}
+	call.Args = append(args, call.Args...)
+	call.Fun = &ast.Ident{Name: name}
+}
+
+const bigHelpers = `func verifBigSize(v any) uint64 {
+	switch x := v.(type) {
+	case *big.Int:
+		if x == nil {
+			return 0
+		}
+		return uint64(x.BitLen())/64 + 1
+	case *big.Rat:
+		if x == nil {
+			return 0
+		}
+		return uint64(x.Num().BitLen()+x.Denom().BitLen())/64 + 2
+	case string:
+		return uint64(len(x))/16 + 1
+	}
+	return 0
+}
+
+func verifSatMul(a, b uint64) uint64 {
+	if a != 0 && b > (1<<62)/a {
+		return 1 << 62
+	}
+	return a * b
+}
+
+// verifBigCost estimates the work of a math/big call from its operands: a
+// schoolbook upper bound, in quarter word operations.
+func verifBigCost(kind uint8, a, b, c any) uint64 {
+	wa, wb := verifBigSize(a), verifBigSize(b)
+	switch kind {
+	case 1: // products, quotients, rational arithmetic
+		return verifSatMul(wa, wb)/4 + 1
+	case 2: // Exp(x, y, m)
+		x, _ := a.(*big.Int)
+		y, _ := b.(*big.Int)
+		m, _ := c.(*big.Int)
+		if x == nil || y == nil || y.Sign() <= 0 {
+			return 1
+		}
+		if m != nil && m.Sign() != 0 {
+			wm := verifBigSize(m)
+			return verifSatMul(verifSatMul(wm, wm), uint64(y.BitLen()))/4 + 1
+		}
+		if x.BitLen() <= 1 {
+			return 1
+		}
+		if !y.IsUint64() {
+			return 1 << 62
+		}
+		rw := verifSatMul(uint64(x.BitLen()), y.Uint64())/64 + 1
+		return verifSatMul(rw, rw)/4 + 1
+	case 3: // shifts: the second operand is a bit count
+		var n uint64
+		switch v := b.(type) {
+		case uint:
+			n = uint64(v)
+		case int:
+			if v > 0 {
+				n = uint64(v)
+			}
+		}
+		return (wa+n/64)/4 + 1
+	case 4: // quadratic in the first operand
+		return verifSatMul(wa, wa)/4 + 1
+	}
+	return 1
+}
+
+func verifBigCharge(site uint32, cost uint64) {
+	if h := VerifCostHook; h != nil {
+		h(site, cost)
+	}
+}
+
+func verifBig11[A, R any](site uint32, kind uint8, f func(A) R, a A) R {
+	verifBigCharge(site, verifBigCost(kind, a, nil, nil))
+	return f(a)
+}
+func verifBig21[A, B, R any](site uint32, kind uint8, f func(A, B) R, a A, b B) R {
+	verifBigCharge(site, verifBigCost(kind, a, b, nil))
+	return f(a, b)
+}
+func verifBig31[A, B, C, R any](site uint32, kind uint8, f func(A, B, C) R, a A, b B, c C) R {
+	verifBigCharge(site, verifBigCost(kind, a, b, c))
+	return f(a, b, c)
+}
+func verifBig22[A, B, R, S any](site uint32, kind uint8, f func(A, B) (R, S), a A, b B) (R, S) {
+	verifBigCharge(site, verifBigCost(kind, a, b, nil))
+	return f(a, b)
+}
+func verifBig32[A, B, C, R, S any](site uint32, kind uint8, f func(A, B, C) (R, S), a A, b B, c C) (R, S) {
+	verifBigCharge(site, verifBigCost(kind, a, b, c))
+	return f(a, b, c)
+}
 
 `
 
@@ -942,6 +1117,10 @@ func rewriteAtomics(files []*ast.File) {
 					onceSites++
 					call.Args = []ast.Expr{&ast.BasicLit{Kind: token.INT, Value: fmt.Sprintf("%d|0x%x", id, uint32(spinFlag))}, key, call.Args[0]}
 					call.Fun = &ast.Ident{Name: "verifOnceDo"}
+					return true
+				}
+				if tf.Pkg().Path() == "math/big" {
+					rewriteBig(call, tf, fn)
 					return true
 				}
 				if tf.Pkg().Path() != "sync/atomic" {
